@@ -168,7 +168,7 @@ fault_h!(c13_fast_v1a1_at5, 1, 1, true, true, 5, 5);
 fault_h!(c13_std_v1a1_at0, 1, 1, false, true, 0, 5);
 //@ prop=C13 tier=thorough cost=900 fns="Mp4Writer::finalize,finalize_standard,write_counted,io::Write::write_all" bound="standard, 1 video + 1 audio sample; write call #1 fails hard / is Interrupted / accepts any number of bytes (all symbolic)" unwind=5 stubs="build_moov_box(recording stand-in)" timeout=3000
 fault_h!(c13_std_v1a1_at1, 1, 1, false, true, 1, 5);
-//@ prop=C13 tier=quick cost=300 fns="Mp4Writer::finalize,finalize_standard,write_counted,io::Write::write_all" bound="standard, 1 video + 1 audio sample; write call #2 fails hard / is Interrupted / accepts any number of bytes (all symbolic)" unwind=5 stubs="build_moov_box(recording stand-in)" timeout=1200
+//@ prop=C13 tier=thorough cost=300 fns="Mp4Writer::finalize,finalize_standard,write_counted,io::Write::write_all" bound="standard, 1 video + 1 audio sample; write call #2 fails hard / is Interrupted / accepts any number of bytes (all symbolic)" unwind=5 stubs="build_moov_box(recording stand-in)" timeout=1200
 fault_h!(c13_std_v1a1_at2, 1, 1, false, true, 2, 5);
 //@ prop=C13 tier=thorough cost=900 fns="Mp4Writer::finalize,finalize_standard,write_counted,io::Write::write_all" bound="standard, 1 video + 1 audio sample; write call #3 fails hard / is Interrupted / accepts any number of bytes (all symbolic)" unwind=5 stubs="build_moov_box(recording stand-in)" timeout=3000
 fault_h!(c13_std_v1a1_at3, 1, 1, false, true, 3, 5);
@@ -186,11 +186,11 @@ fault_h!(c13_fast_v2_at2, 2, 0, true, false, 2, 5);
 fault_h!(c13_fast_v2_at3, 2, 0, true, false, 3, 5);
 //@ prop=C13 tier=thorough cost=900 fns="Mp4Writer::finalize,finalize_fast_start,write_counted,io::Write::write_all" bound="fast start, video-only 2 samples; write call #4 fails hard / is Interrupted / accepts any number of bytes (all symbolic)" unwind=5 stubs="build_moov_box(recording stand-in)" timeout=3000
 fault_h!(c13_fast_v2_at4, 2, 0, true, false, 4, 5);
-//@ prop=C13 tier=quick cost=300 fns="Mp4Writer::finalize,finalize_fast_start,write_counted,io::Write::write_all" bound="fast start, video-only 2 samples; write call #5 fails hard / is Interrupted / accepts any number of bytes (all symbolic)" unwind=5 stubs="build_moov_box(recording stand-in)" timeout=1200
+//@ prop=C13 tier=thorough cost=300 fns="Mp4Writer::finalize,finalize_fast_start,write_counted,io::Write::write_all" bound="fast start, video-only 2 samples; write call #5 fails hard / is Interrupted / accepts any number of bytes (all symbolic)" unwind=5 stubs="build_moov_box(recording stand-in)" timeout=1200
 fault_h!(c13_fast_v2_at5, 2, 0, true, false, 5, 5);
 
 // API level: an I/O failure surfaces as MuxerError::Io and the muxer stays finished-or-failed
-//@ prop=C13 tier=quick cost=400 fns="api::Muxer::finish_in_place_with_stats,Mp4Writer::finalize" bound="API muxer with one VP9 frame, either layout; write call #2 fails hard or accepts any number of bytes" unwind=12 stubs="build_moov_box(recording stand-in)" timeout=1500
+//@ prop=C13 tier=thorough cost=400 fns="api::Muxer::finish_in_place_with_stats,Mp4Writer::finalize" bound="API muxer with one VP9 frame, either layout; write call #2 fails hard or accepts any number of bytes" unwind=12 stubs="build_moov_box(recording stand-in)" timeout=1500
 #[kani::proof]
 #[kani::unwind(11)]
 #[kani::stub(muxide::invariant_ppt::__assert_invariant_impl, crate::stubs::assert_invariant_stub)]
